@@ -75,11 +75,7 @@ func humanizeFloat(v float64, decimals int) string {
 	// Float to string is complicated, but can leverage FormatFload and insert commas
 	var buf [64]byte // Operations on the stack
 	s := strconv.AppendFloat(buf[:0], v, 'f', decimals, 64)
-
-	if v > -1000.0 && v < 1000.0 {
-		// performance escape hatch when no commas
-		return string(s)
-	}
+	full := s
 
 	negative := s[0] == '-'
 	if !isDigit(s[0]) { // assume it's a sign/prefix
@@ -89,6 +85,11 @@ func humanizeFloat(v float64, decimals int) string {
 	decIdx := bytes.IndexByte(s, '.')
 	if decIdx < 0 { // no decimal
 		decIdx = len(s)
+	}
+
+	if decIdx <= 3 {
+		// performance escape hatch when no commas (decided on the rounded text)
+		return string(full)
 	}
 
 	// Return stack buf
